@@ -92,6 +92,22 @@ def handleSave (cmd : String) (args : List SExp) : String :=
         let (outs, F) := saveRun kind cmac c ops []
         "ok " ++ ",".intercalate (c.parts.map renderPart) ++ " " ++ " ".intercalate outs ++ " | " ++ toHexW F
     | _, _, _, _, _ => "bad-args"
+  | "save-hyp", [k, f] =>
+    -- are the hypotheses of the hash-path theorem (C18_write_hash_path, with Bd = the partition offset) met by this image?
+    match k.sym?, f.bytes? with
+    | some ks, some file =>
+      let kind := if ks == "disa" then Kind.disa else Kind.diff
+      match openCont Prim.sha256 kind file true with
+      | .error e => "e:" ++ e.name
+      | .ok c =>
+        "ok " ++ " ".intercalate (c.parts.map fun p =>
+          let g := geomOK (p.P c.F) p.tree p.master
+          let lay := decide (0x200 ≤ p.pOff) && decide (p.pOff ≤ c.F.length) && decide (c.header.length = 0x100)
+          let d := match partdescToBytes ⟨p.difi, p.ivfc, p.dpfs, p.master⟩ p.descSize with
+            | some pd => decide (c.tableOff + p.descOff + pd.length ≤ p.pOff)
+            | none => false
+          "p" ++ toString p.index ++ ":" ++ (if g then "g" else "-") ++ (if lay then "l" else "-") ++ (if d then "d" else "-"))
+    | _, _ => "bad-args"
   | "cmac", [k, m] =>
     match k.bytes?, m.bytes? with
     | some key, some msg => toHexW (Prim.cmac key msg)
